@@ -9,7 +9,9 @@ from props.parts import aes_common as C
 from props.parts.aes_common import run_impl, shrink
 
 PREFIX = ('aes.',)
-LEAN_PROOFS = ['Proofs.C02_Aes']
+# the property theorems; then the modules whose kernel enumerations they rest on (each `rows` = 4096 gmul pairs), so that the
+# thorough tier's leanchecker re-checks those too
+LEAN_PROOFS = ['Proofs.C02_Aes', 'Proofs.C02_Aes.SpecFacts'] + ['Proofs.C02_Aes.Gmul%02d' % i for i in range(16)]
 GEN_ITEMS = ['Aes']
 RULE = ('AES: op lines = (operation, key, block/state) — FIPS 197 App. B/C and SP 800-38A vectors, all-zero/all-one/identity keys and '
         'blocks, single-bit keys and blocks, keys with zero/all-one words, seeded random per key size, every wrong key/block size; '
